@@ -477,6 +477,7 @@ class TVHarness(forksym.Harness):
         pdshim.MUTATIONS.clear()
         pdshim.KF_ON.clear()
         pdshim.KF_ON.update(j.get("kf_on", []))
+        pdshim.ALLOW_WINDOW_TIES[0] = bool(j.get("allow_window_ties"))
         tabs = self.tabs()
         add_assumptions(eng, j.get("assume"), tabs)
         if j.get("fix_input"):  # replay mode: pin every input cell to a recorded concrete value
